@@ -15,6 +15,7 @@ import re
 import time
 from fractions import Fraction
 
+import c20_surface
 import vlib
 from vlib import CONFIGS, SAN_CLANG, SAN_GCC, UBSAN_ENV, pmap
 
@@ -1414,7 +1415,7 @@ def p2_prepare(tier, rng, wd, selections, utab, ratio):
         if tier != "thorough":
             # quick: 5 of the 8 rep classes per program (always a sub-int one, a 64-bit one and a floating one)
             reps = [rng.choice(REPS[0:2]), rng.choice(REPS[4:6]), rng.choice(REPS[6:8])]
-            reps += rng.sample([r for r in REPS if r not in reps], 2)
+            reps += rng.sample([r for r in REPS if r not in reps], 1)     # (4 of 8: the directed surface program covers all reps every run)
             reps = [r for r in REPS if r in reps]
         g = P2Gen(rng, sel, utab, ratio, prefixes, reps)
         src = g.generate()
@@ -1532,6 +1533,90 @@ def p2_evaluate(prog, stats, violations):
 # explore / replay
 # ------------------------------------------------------------------------------------------------
 
+
+# ------------------------------------------------------------------------------------------------
+# P6: the directed API-surface program (tools/c20_surface.py) and the small agreement probes
+# ------------------------------------------------------------------------------------------------
+
+def surface_jobs(tier, rng, wd):
+    """The directed program under ALL six configurations in the multi-header packaging (every run, quick too) and in
+    the single-file packaging (quick: reference + clang c++20; thorough: all six)."""
+    src, nfacts = c20_surface.build(rng)
+    d0 = os.path.join(wd, "surface")
+    rc, header, err = generate_single({"units": [], "constants": [], "io": True}, os.path.join(d0, "single"))
+    state = {"source": src, "facts": nfacts, "results": {}, "header": header if rc == 0 else None, "gen_err": err}
+    jobs = []
+    singles = list(CONFIGS) if tier == "thorough" else [REF, ("clang++-14", "c++20")]
+    for cfg in CONFIGS:
+        for pack in ("multi", "single"):
+            if pack == "single" and (cfg not in singles or rc != 0):
+                continue
+
+            def job(cfg=cfg, pack=pack):
+                r = exec_p2(src, cfg, pack, header, os.path.join(d0, cfgtag(cfg) + "_" + pack))
+                return [("surface", cfg, r, {"packaging": pack, "state": state})]
+            jobs.append({"family": "P6", "cost": 30 if cfg[0] != "g++" else 20, "run": job})
+    for name, msrc, mode in c20_surface.MINI_PROBES:
+        for cfg in CONFIGS:
+            def mjob(name=name, msrc=msrc, mode=mode, cfg=cfg):
+                d = os.path.join(d0, "mini_" + name, cfgtag(cfg))
+                f = _write(os.path.join(d, "tu.cc"), msrc)
+                if mode == "syntax":
+                    rc2, diag = syntax_only(f, cfg, [vlib.AU_INC])
+                else:
+                    rc2, o, e = run([cfg[0], f"-std={cfg[1]}", "-O0", "-w", "-I", vlib.AU_INC, f, "-o", os.path.join(d, "tu")], timeout=1800)
+                    diag = o + e
+                    if rc2 == 0:
+                        rc2, o, e = run([os.path.join(d, "tu")], timeout=120)
+                        diag = f"exit={rc2} " + o + e
+                ok = rc2 == 0
+                return [("mini:" + name, cfg, {"ok": ok, "actual": "accepted" if ok else "rejected: " + _tr(diag)},
+                         {"source": msrc, "packaging": "multi", "compiler": cfg[0], "std": cfg[1], "expected": "accepted, linked and run alike under all six configurations"})]
+            jobs.append({"family": "P6", "cost": 3, "run": mjob})
+    return state, jobs
+
+
+def surface_evaluate(state, stats, violations):
+    res = state["results"]
+    base = {"source": state["source"]}
+    stats["surface_facts"] = state["facts"]
+    if state["header"] is None:
+        violations.append(mk_violation("make-single-file fails for the empty selection with io: " + _tr(state["gen_err"], 400),
+                                       "surface-single-gen", "surface", cfgname(REF), packaging="single", expected="header generated", actual=_tr(state["gen_err"]), **base))
+    ref = res.get((REF, "multi"))
+    if ref is None:
+        return
+    for (cfg, pack), r in sorted(res.items(), key=lambda kv: (cfgname(kv[0][0]), kv[0][1])):
+        stats["evaluations"] += 1
+        tagc = f"{cfgname(cfg)}/{pack}"
+        if not r["compiled"]:
+            fe = first_error(r["diag"])
+            violations.append(mk_violation(f"directed API-surface program rejected under {tagc}: {fe}", f"surface-reject:{norm_err(fe)}", "surface",
+                                           cfgname(cfg), packaging=pack, expected="accepted under every configuration and packaging",
+                                           actual="rejected: " + r["diag"], compiler=cfg[0], std=cfg[1], **base))
+            continue
+        stats["evaluations"] += 2
+        if r["exit"] != 0 or not r["stdout"].rstrip().endswith("END"):
+            violations.append(mk_violation(f"directed API-surface program exits with {r['exit']} under {tagc}", f"surface-exit:{pack}:{cfgname(cfg)}", "surface",
+                                           cfgname(cfg), packaging=pack, expected="exit 0", actual=f"exit={r['exit']} stderr={_tr(r['stderr'], 800)}", **base))
+        if san_report(r["stderr"]):
+            lines = [l for l in r["stderr"].split("\n") if any(m in l for m in SAN_MARKERS)]
+            violations.append(mk_violation(f"directed API-surface program: sanitizer report under {tagc}: {lines[0][:300]}", "surface-sanitizer", "surface",
+                                           cfgname(cfg), packaging=pack, expected="no sanitizer report", actual=_tr(r["stderr"]), **base))
+        bad = [l for l in r["stdout"].split("\n") if "!MISMATCH" in l]
+        for l in bad[:6]:
+            t = l.split(" = ")[0]
+            violations.append(mk_violation(f"directed API-surface program, {tagc}: value differs from the hand-derived exact expectation: {l[:300]}",
+                                           f"surface-mismatch:{t}", "surface", cfgname(cfg), packaging=pack, expected="no !MISMATCH line", actual=l[:400], tag=t, **base))
+        stats["evaluations"] += r["stdout"].count("\n")
+        if (cfg, pack) != (REF, "multi") and ref["compiled"] and r["stdout"] != ref["stdout"]:
+            dl = first_diff(ref["stdout"], r["stdout"])
+            t = dl[1].split(" = ")[0] if dl else "?"
+            violations.append(mk_violation(f"directed API-surface program: output differs between g++ c++14/multi and {tagc} at line {dl[0]}: {dl[1]!r} vs {dl[2]!r}",
+                                           f"surface-output:{t}", "surface", cfgname(cfg), packaging=pack, expected=dl[1], actual=dl[2], line=dl[0], tag=t, **base))
+    stats["surface_runs"] = len([r for r in res.values() if r["compiled"]])
+    stats["surface_lines"] = ref["stdout"].count("\n") if ref["compiled"] else 0
+
 PROBE_WHAT = {
     "leftover-include": "generated single-file header still contains a quoted (project) #include",
     "self-contained-include": "TU including the generated au.hh twice, with only its directory on the include path, is rejected",
@@ -1543,6 +1628,9 @@ PROBE_WHAT = {
     "full-then-fwd": "full header followed by its forward-declaration header is rejected",
     "fwd-then-full-batch": "all unit *_fwd.hh headers followed by all unit headers in one TU is rejected",
     "full-then-fwd-batch": "all unit headers followed by all unit *_fwd.hh headers in one TU is rejected",
+    "mini:odr-static-unit": "ODR-use (reference / address) of the `unit` static data members does not compile+link alike",
+    "mini:constexpr-copysign": "a constant expression calling au::copysign is not accepted alike",
+    "mini:compound-assign-unitless": "built-in compound assignment `arithmetic op= unitless Quantity` is not accepted alike",
 }
 
 
@@ -1585,6 +1673,8 @@ def explore(tier, seed, rng, wd, selections):
     j4, pairs, missing = p4_jobs(tier, rng, wd)
     jobs += j4
     jobs.append(p5_job(wd))
+    surf_state, j6 = surface_jobs(tier, rng, wd)
+    jobs += j6
     stats["p3_other_config"] = p3_other
     stats["p3_subsample"] = len(p3_sub)
     stats["fwd_pairs"] = len(pairs)
@@ -1610,6 +1700,10 @@ def explore(tier, seed, rng, wd, selections):
                     rec["prog"]["results"][(cfg, rec["packaging"])] = r
                     stats["configs"].add(cfgname(cfg))
                     continue
+                if probe == "surface":
+                    rec["state"]["results"][(cfg, rec["packaging"])] = r
+                    stats["configs"].add(cfgname(cfg))
+                    continue
                 stats["evaluations"] += 1
                 stats["probes"][probe] = stats["probes"].get(probe, 0) + 1
                 cname = cfgname(cfg) if cfg else cfgname(REF)
@@ -1630,6 +1724,8 @@ def explore(tier, seed, rng, wd, selections):
                     elif probe in ("standalone-header", "fwd-then-full", "full-then-fwd") and \
                             err_file(fe) in (os.path.basename(subject), "tu.cc"):
                         cls = f"{probe}:{subject}"
+                    elif probe.startswith("mini:"):
+                        cls = f"{probe}:{cname}"
                     elif probe == "leftover-include":
                         cls = f"{probe}:" + re.sub(r"^\d+: ", "", r["actual"].split(";")[0])
                     else:
@@ -1639,6 +1735,7 @@ def explore(tier, seed, rng, wd, selections):
                     stats["samples"].append({"probe": probe, "config": cname, "subject": rec.get("header"),
                                              "source": _tr(rec.get("source", ""), 400), "verdict": r["actual"][:120]})
     absorb(resA)
+    surface_evaluate(surf_state, stats, violations)
 
     # ---- phase B: P2 ----------------------------------------------------------------------------------------------
     if tables.get("ratio") is None:
@@ -1701,6 +1798,30 @@ def replay(rec, wd):
         elif probe.endswith("-batch"):
             src = p4_batch_source([q for q in fwd_pairs()[0] if q[2] == "unit"], probe[:-6])
         r = exec_src(src, cfg, os.path.join(d, "hdr"))
+    elif probe == "surface" or (probe or "").startswith("mini:"):
+        # the recorded source is the input; the single-file header is regenerated from the current tree
+        pack = rec.get("packaging", "multi")
+        hdr = None
+        if pack == "single":
+            rc, hdr, err = generate_single({"units": [], "constants": [], "io": True}, os.path.join(d, "single"))
+            if rc != 0:
+                print("replay: make-single-file fails on the current tree:", _tr(err, 800))
+                return 1
+        if probe == "surface":
+            ref = exec_p2(rec["source"], REF, "multi", hdr, os.path.join(d, "ref"))
+            cur = ref if (cfg == REF and pack == "multi") else exec_p2(rec["source"], cfg, pack, hdr, os.path.join(d, "cur"))
+            bad = (not cur["compiled"]) or cur["exit"] != 0 or "!MISMATCH" in cur["stdout"] or san_report(cur["stderr"]) or \
+                (ref["compiled"] and cur["stdout"] != ref["stdout"])
+            print(f"replay: reference compiled={ref['compiled']}; probed compiled={cur['compiled']} exit={cur['exit']} "
+                  f"mismatch lines={[l for l in cur['stdout'].split(chr(10)) if '!MISMATCH' in l][:5]} "
+                  f"first diff={first_diff(ref['stdout'], cur['stdout']) if ref['compiled'] and cur['compiled'] else None}")
+            if not cur["compiled"]:
+                print(_tr(cur["diag"], 1200))
+            r = {"ok": not bad, "actual": "holds" if not bad else "fails"}
+        else:
+            f = _write(os.path.join(d, "mini", "tu.cc"), rec["source"])
+            rc2, o, e = run([cfg[0], f"-std={cfg[1]}", "-O0", "-w", "-I", vlib.AU_INC, f, "-o", os.path.join(d, "mini", "tu")], timeout=1800)
+            r = {"ok": rc2 == 0, "actual": "accepted" if rc2 == 0 else "rejected: " + _tr(o + e)}
     elif probe == "fwd-missing":
         ok = os.path.exists(os.path.join(vlib.AU_INC, rec["missing"]))
         r = {"ok": ok, "actual": "exists" if ok else "missing"}
